@@ -390,6 +390,30 @@ impl<T: E> World<T> {
     let t = |i: usize| -> &str { toks.get(i).copied().unwrap_or("-") };
     let mut ret = String::from("-");
     let mut out = "ok";
+    // C07 stability: storage address and capacity before the operation
+    let target: Option<usize> = match name {
+      "dropit" => {
+        let i = n(1);
+        if i < self.iters.len() {
+          match &self.iters[i] {
+            Some(It::Drain(v, _)) | Some(It::Splice(v, _)) | Some(It::Filter(v, _)) => Some(*v),
+            _ => None,
+          }
+        } else {
+          None
+        }
+      }
+      "push" | "insert" | "extslice" | "extend" | "extwithin" | "append" | "resize" | "resizewith" | "pop" | "remove"
+      | "swaprm" | "trunc" | "clear" | "retain" | "dedup" | "dedupby" | "dedupkey" | "rmitem" => Some(n(1)),
+      _ => None,
+    };
+    let pre: Option<(usize, usize, usize)> = match target {
+      Some(v) if v < self.vecs.len() && self.vecs[v].is_some() => {
+        let mv = self.vref(v);
+        Some((mv.as_ptr() as usize, mv.capacity(), mv.len()))
+      }
+      _ => None,
+    };
     macro_rules! need {
       ($v:expr) => {
         if !self.has($v) {
@@ -1418,6 +1442,20 @@ impl<T: E> World<T> {
       }
       _ => {
         out = "unknown";
+      }
+    }
+    if let (Some(v), Some((p0, c0, _l0))) = (target, pre) {
+      if out == "ok" && v < self.vecs.len() && self.vecs[v].is_some() && !self.borrowed[v] {
+        let mv = self.vref(v);
+        let (p1, c1, l1) = (mv.as_ptr() as usize, mv.capacity(), mv.len());
+        let removing = matches!(name, "pop" | "remove" | "swaprm" | "trunc" | "clear" | "retain" | "dedup" | "dedupby" | "dedupkey" | "rmitem");
+        // an element-removing operation, or an element-adding one whose result fits the old capacity,
+        // must leave the storage where it is with the same capacity
+        if (removing || l1 <= c0) && (p1 != p0 || c1 != c0) && !(p0 == 0 && c0 == 0 && l1 == 0 && p1 == 0) {
+          if !(p0 == 0 && l1 > 0) {
+            self.monitor(format!("storage_moved:{}:cap{}>{}", name, c0, c1));
+          }
+        }
       }
     }
     self.emit(k, name, out, &ret);
